@@ -161,11 +161,13 @@ Definition brute_solve (M : matrix) : list (nat * nat) :=
   argmin M (enum (length M) 0 (seq 0 (mcols M)) (Nat.min (length M) (mcols M))).
 Definition brute_opt (M : matrix) : Z := mtotal M (brute_solve M).
 
+(* every pair is missing (and there is at least one pair).  Not a known-finding class any more: D14a (TypeError
+   from `assert null_edge_value > None`) is fixed, such a table now yields the empty pairing and belongs to the
+   domain; the predicate only names the region for the theorems about it (MatchProofs, section I). *)
+Definition all_missingb (W : table) : bool := has_null W && negb (is_some (max_edge W)).
+
 (* ------------------------------------------------------------------ known-finding classes (D14) *)
 Definition kf_class : Type := Z -> table -> bool.
-
-(* every pair is missing (and there is at least one pair): TypeError from `assert null_edge_value > None` *)
-Definition kf_all_missing : kf_class := fun _ W => has_null W && negb (is_some (max_edge W)).
 
 (* a pair is missing and (largest column sum) + 1 does not exceed the largest weight - possible only when
    some weight is negative: AssertionError *)
@@ -191,7 +193,7 @@ Definition kf_beyond_2p53 : kf_class := fun u W => negb (float_safeb (filled u W
 
 Definition in_domainb (u : Z) (W : table) : bool :=
   rectb W && negb (mixedb W) &&
-  negb (kf_all_missing u W) && negb (kf_negative_with_missing u W) &&
+  negb (kf_negative_with_missing u W) &&
   negb (kf_sentinel_overflow u W) && negb (kf_beyond_2p53 u W).
 
 (* ------------------------------------------------------------------ the property, on an observed result *)
@@ -208,7 +210,6 @@ Definition prop_ok (c : case) : bool :=
        end.
 
 (* what an open known finding excuses: only its own failure mode, on its own class of tables *)
-Definition ex_kf_all_missing (c : case) : bool := match c_result c with Err TypeError => true | _ => false end.
 Definition ex_kf_negative_with_missing (c : case) : bool :=
   match c_result c with Err AssertionError => true | _ => false end.
 Definition ex_kf_sentinel_overflow (c : case) : bool :=
